@@ -164,10 +164,12 @@ func CountOf(buffs [][]byte) (n int64) {
 // ByteStealer steal from io.Reader
 type ByteStealer struct {
 	Data []byte
+	// copy: the chunks are copied instead of kept (the writer may fill the same buffer again)
+	copy bool
 }
 
 func (s *ByteStealer) Write(p []byte) (n int, err error) {
-	if nil == s.Data {
+	if nil == s.Data && !s.copy {
 		s.Data = p[0:len(p):len(p)]
 	} else {
 		s.Data = append(s.Data, p...)
@@ -177,6 +179,14 @@ func (s *ByteStealer) Write(p []byte) (n int, err error) {
 
 func StealBytes(reader io.WriterTo) ([]byte, error) {
 	var stealer ByteStealer
+	switch reader.(type) {
+	case *bytes.Reader, *strings.Reader, *bytes.Buffer:
+		// hand over their own storage in a single Write: it can be kept
+	default:
+		// any other io.WriterTo may write chunk after chunk from one buffer (io.Copy does): keeping the first
+		// chunk would show whatever that buffer holds later
+		stealer.copy = true
+	}
 	n, err := reader.WriteTo(&stealer)
 	if nil != err {
 		return nil, err
